@@ -219,8 +219,12 @@ impl Monitor for C09 {
                     if *space == Space::App && c.confirmed {
                         if c.chain_n == 0 {
                             c.chain_t0 = if c.last_ae_tx == t { c.prev_ae_tx } else { c.last_ae_tx };
-                            // an allowance left over from before the ACK?
-                            c.chain_stale = u32::from(c.probes_since_expiry_marker < 2);
+                            // An expiry's allowance of two probe packets survives the ACK that
+                            // resets the back-off (seen: an expiry and an ACK at the same
+                            // instant, both probes sent 120 and 200 ms later in probe mode with
+                            // the back-off already reset): up to two packets of the chain may
+                            // be left-overs.
+                            c.chain_stale = 2;
                         }
                         c.chain_n += 1;
                         c.probes_since_expiry_marker += 1;
